@@ -12,7 +12,7 @@
 #![allow(dead_code, unused_imports, unused_variables, unused_mut)]
 use super::verif_kani::*;
 use super::*;
-use crate::frame::{BindPayload, BindType, ConnectPayload, Frame, OpCode, Payload};
+use crate::frame::{BindPayload, BindType, ConnectPayload, Frame, OpCode, Payload, PushPayload};
 use crate::loom::Ordering;
 use alloc::vec::Vec;
 use core::future::Future;
@@ -526,6 +526,17 @@ fn t_push_stream_dropped() {
 }
 
 // ======================================================================== Connect
+
+/// the Connect reaction.  `process_frame`'s Connect arm is a wrapper that awaits the async fn
+/// `con_recv_new_stream`; a future awaited from inside another `async fn` lives inside the outer
+/// state machine, and CBMC then no longer folds either state tag (measured: 27 k symex steps when
+/// `con_recv_new_stream` is polled directly, 790 k through a one-line async wrapper, DESIGN.md 9.7).
+/// The contracts below therefore poll `con_recv_new_stream` itself; that the arm passes
+/// (flow id, host, port, window) through unchanged is checked once, with concrete values, by
+/// `t_connect_arm_wiring` (thorough tier).
+pub(crate) fn connect_direct(w: &World, host: &'static [u8], port: u16, id: u32, peer: u32) -> Poll<Result<()>> {
+    poll_once(w.task.con_recv_new_stream(id, Bytes::from_static(host), port, peer))
+}
 /// Connect on flow id 0: rejected with Reset(0), table unchanged
 #[cfg_attr(kani, kani::proof)]
 #[cfg_attr(kani, kani::stub(catch_unwind, call_through))]
@@ -534,11 +545,9 @@ fn t_push_stream_dropped() {
 fn t_connect_zero() {
     let mut w = world(4, 2, false, 1);
     let mut rb = bystander_bind(&w);
-    // concrete field values: symbolic fields inside the frame (which lives in the future object next
-    // to the async state tag) stop CBMC from folding the state machine (DESIGN.md 9.7)
-    let peer: u32 = PEER;
-    let port: u16 = PORT;
-    let r = poll_once(w.task.process_frame(connect_frame(b"h", port, 0, peer), false));
+    let peer: u32 = kani::any();
+    let port: u16 = kani::any();
+    let r = connect_direct(&w, b"h", port, 0, peer);
     assert!(matches!(r, Poll::Ready(Ok(()))), "C07.connect.zero.ok");
     core::mem::forget(r);
     let seen = next_seen(&mut w.tx_msg_rx);
@@ -556,9 +565,9 @@ fn t_connect_zero() {
 fn t_connect_in_use() {
     let mut w = world(4, 2, false, 1);
     let mut sb = bystander_established(&w);
-    let peer: u32 = PEER;
-    let port: u16 = PORT;
-    let r = poll_once(w.task.process_frame(connect_frame(b"h", port, B, peer), false));
+    let peer: u32 = kani::any();
+    let port: u16 = kani::any();
+    let r = connect_direct(&w, b"h", port, B, peer);
     assert!(matches!(r, Poll::Ready(Ok(()))), "C07.connect.inuse.ok");
     core::mem::forget(r);
     let seen = next_seen(&mut w.tx_msg_rx);
@@ -576,14 +585,14 @@ fn t_connect_in_use() {
 #[cfg_attr(kani, kani::unwind(6))]
 #[cfg_attr(verif_replay, test)]
 fn t_connect_fresh() {
-    // concrete, pairwise different values (own window 3, threshold 5 > window, peer window 9)
-    let rwnd: u32 = 3;
-    let thr: u32 = 5;
+    let rwnd: u32 = kani::any();
+    let thr: u32 = kani::any();
+    kani::assume(rwnd >= 1 && rwnd <= 4 && thr >= 1);
     let mut w = world(rwnd, thr, false, 1);
     let mut rb = bystander_bind(&w);
-    let peer: u32 = PEER;
-    let port: u16 = PORT;
-    let r = poll_once(w.task.process_frame(connect_frame(b"hi", port, A, peer), false));
+    let peer: u32 = kani::any();
+    let port: u16 = kani::any();
+    let r = connect_direct(&w, b"hi", port, A, peer);
     assert!(matches!(r, Poll::Ready(Ok(()))), "C07.connect.ok");
     core::mem::forget(r);
     let seen = next_seen(&mut w.tx_msg_rx);
@@ -610,14 +619,37 @@ fn t_connect_fresh() {
 }
 
 
+/// the Connect arm of `process_frame` hands (flow id, host, port, window) of the frame to
+/// `con_recv_new_stream` unchanged: concrete, pairwise different values through the dispatcher
+#[cfg_attr(kani, kani::proof)]
+#[cfg_attr(kani, kani::stub(catch_unwind, call_through))]
+#[cfg_attr(kani, kani::unwind(6))]
+#[cfg_attr(verif_replay, test)]
+fn t_connect_arm_wiring() {
+    let mut w = world(3, 5, false, 1);
+    let r = poll_once(w.task.process_frame(connect_frame(b"hi", PORT, A, PEER), false));
+    assert!(matches!(r, Poll::Ready(Ok(()))), "C07.wiring.ok");
+    core::mem::forget(r);
+    let seen = next_seen(&mut w.tx_msg_rx);
+    assert!(seen.op == 1 && seen.id == A && seen.arg == 3, "C03.wiring.ack_window: Acknowledge(id of the frame, own window)");
+    let got = w.con_rx.try_recv();
+    match &got {
+        Ok(s) => assert!(s.flow_id == A && s.dest_port == PORT && s.dest_host.len() == 2 && s.dest_host[0] == b'h' && s.psh_send_remaining.load(Ordering::Relaxed) == PEER,
+            "C07.wiring.fields: id, host, port and the peer's window reach the stream unchanged"),
+        Err(_) => assert!(false, "C07.wiring.delivered"),
+    }
+    core::mem::forget(got);
+    core::mem::forget(w);
+}
+
 fn connect_on_pending(on_bind: bool) {
     let mut w = world(4, 2, false, 1);
     let mut rb = bystander_bind(&w); // a pending bind under id B
     let (tx, mut rx) = oneshot::channel::<Option<MuxStream>>();
     w.task.flows.write().insert(A, FlowSlot::Requested(tx)); // a pending open under id A
     let id = if on_bind { B } else { A };
-    let peer: u32 = PEER;
-    let r = poll_once(w.task.process_frame(connect_frame(b"h", 7, id, peer), false));
+    let peer: u32 = kani::any();
+    let r = connect_direct(&w, b"h", 7, id, peer);
     assert!(matches!(r, Poll::Ready(Ok(()))), "C07.connect.pending.ok");
     core::mem::forget(r);
     let seen = next_seen(&mut w.tx_msg_rx);
@@ -900,7 +932,7 @@ fn t_reuse_after_abort() {
     w.task.flows.write().insert(A, FlowSlot::Established(da));
     w.task.close_flow(A, true);
     let peer: u32 = kani::any();
-    let r = poll_once(w.task.process_frame(connect_frame(b"h", 1, A, peer), false));
+    let r = connect_direct(&w, b"h", 1, A, peer);
     assert!(matches!(r, Poll::Ready(Ok(()))), "C06.reuse.ok: a freed id can be opened again");
     core::mem::forget(r);
     let got = w.con_rx.try_recv();
